@@ -17,6 +17,7 @@ import Noodles.Sam.DriverC06
 import Noodles.Util.DriverC20
 import Noodles.Io.DriverC12
 import Noodles.Bgzf.DriverC16
+import Noodles.Cram.DriverC08
 namespace Noodles
 open Noodles.Wire
 
@@ -39,6 +40,7 @@ def dispatch (line : String) : String :=
   | "c20" :: rest => Util.handleC20 rest
   | "c12" :: rest => IO.handleC12 rest
   | "c16" :: rest => Bgzf.Async.handleC16 rest
+  | "c08" :: rest => Cram.DriverC08.handle rest
   | _ => "bad-suite"
 
 end Noodles
